@@ -302,6 +302,10 @@ def simplify(e):
         return e
     out = {k: (simplify(v) if isinstance(v, (dict, list)) else v) for k, v in e.items()}
     k = out.get('k')
+    if k == 'bin' and out.get('op') in ('==', '!='):
+        r_ = _open_coded_list_empty(out)
+        if r_ is not None:
+            return r_
     if k == 'member' and out.get('arrow'):
         b = out['base']
         while isinstance(b, dict) and b.get('k') in ('load', 'cast') and 'e' in b and b.get('k') == 'load':
@@ -314,6 +318,22 @@ def simplify(e):
         if isinstance(b, dict) and b.get('k') == 'addr':
             return b['e']
     return out
+
+
+def _open_coded_list_empty(b):
+    """`X.next == &X` / `p->next == p` (either operand order) is iv_list_empty(&X)."""
+    for l, r in ((b['l'], b['r']), (b['r'], b['l'])):
+        m = l
+        while isinstance(m, dict) and m.get('k') in ('load', 'cast'):
+            m = m['e']
+        if not (isinstance(m, dict) and m.get('k') == 'member' and m.get('record') == 'iv_list_head' and m['field'] in ('next', 'prev')):
+            continue
+        head = m['base'] if m['arrow'] else {'k': 'addr', 'e': m['base']}
+        hc = canon(head)
+        if canon(r) == hc:
+            call = {'k': 'call', 'callee': 'iv_list_empty', 'args': [head], 'type': 'int', 'loc': b.get('loc', '')}
+            return call if b['op'] == '==' else {'k': 'un', 'op': '!', 'e': call}
+    return None
 
 
 def subst(e, fn):
@@ -343,6 +363,25 @@ SWAP = {'==': '==', '!=': '!=', '<': '>', '>': '<', '<=': '>=', '>=': '<='}
 
 
 def norm_cond(c, pol=True):
+    """atoms of _norm_cond1 plus, for operands whose read of a caching local was
+    replaced by copy propagation, the same atom spelled with that local"""
+    out = []
+    for (op, lc, rc, l, r) in _norm_cond1(c, pol):
+        out.append((op, lc, rc, l, r))
+        if op == 'const':
+            continue
+        ln = names_of(l) if isinstance(l, dict) else {lc}
+        rn = names_of(r) if isinstance(r, dict) else {rc}
+        for a in ln:
+            for b in rn:
+                a2 = lc if a == canon(l) else a
+                b2 = rc if (not isinstance(r, dict) or b == canon(r)) else b
+                if (a2, b2) != (lc, rc):
+                    out.append((op, a2, b2, l, r))
+    return out
+
+
+def _norm_cond1(c, pol=True):
     """Normalise a branch condition taken with polarity `pol` to a list of
     atoms (op, lhs_canon, rhs_canon, lhs_expr, rhs_expr) that all hold, or []
     when nothing simple can be said.  `x` true => ('!=', x, '0'); `!x` true =>
@@ -352,7 +391,7 @@ def norm_cond(c, pol=True):
         return []
     k = c.get('k')
     if k == 'un' and c['op'] == '!':
-        return norm_cond(c['e'], not pol)
+        return _norm_cond1(c['e'], not pol)
     if k == 'bin' and c['op'] in NEG:
         op = c['op'] if pol else NEG[c['op']]
         l, r = c['l'], c['r']
@@ -369,15 +408,15 @@ def norm_cond(c, pol=True):
                     (inner.get('k') == 'un' and inner['op'] == '!') or
                     (inner.get('k') == 'bin' and inner['op'] in NEG) or
                     (inner.get('k') == 'bin' and inner['op'] in ('&&', '||'))):
-                return norm_cond(inner, op == '!=')
+                return _norm_cond1(inner, op == '!=')
         return [(op, lc, rc, l, r)]
     if k == 'bin' and c['op'] == '&&':
         if pol:
-            return norm_cond(c['l'], True) + norm_cond(c['r'], True)
+            return _norm_cond1(c['l'], True) + _norm_cond1(c['r'], True)
         return []
     if k == 'bin' and c['op'] == '||':
         if not pol:
-            return norm_cond(c['l'], False) + norm_cond(c['r'], False)
+            return _norm_cond1(c['l'], False) + _norm_cond1(c['r'], False)
         return []
     if k == 'int':
         return [('const', str(bool(c['v']) == pol), '', c, c)]
@@ -404,9 +443,12 @@ class Block:
 
 
 class Func:
-    def __init__(self, d, unit):
+    def __init__(self, d, unit, copyprop=True):
         self.name = d['name']
         self.unit = unit
+        self._d = d
+        self._copyprop = copyprop
+        self._pristine = None
         self.file = d['file']
         self.loc = d['loc']
         self.endloc = d.get('endloc')
@@ -443,6 +485,21 @@ class Func:
             for i, e in enumerate(b.events):
                 e['_b'] = b.id
                 e['_i'] = i
+        if self.blocks and getattr(self, '_copyprop', True) and os.environ.get('IVY_NO_COPYPROP') != '1':
+            try:
+                self.copyprop = copy_propagate(self)
+            except AnalysisBroken:
+                self.copyprop = 0
+
+    def pristine(self):
+        """the same function without copy propagation (for rules about what the
+        source itself says of a local: NULL-CONTRADICTION)"""
+        if getattr(self, '_d', None) is None:
+            return self
+        if self._pristine is None:
+            self._pristine = Func(self._d, self.unit, copyprop=False)
+            self._pristine.q = getattr(self, 'q', self.name)
+        return self._pristine
 
     def _resolve_joined_conditions(self):
         """clang joins the evaluation of a nested short-circuit condition
@@ -603,6 +660,203 @@ class Func:
 
     def relloc(self):
         return relpath(self.loc)
+
+
+def names_of(e):
+    """canonical spellings under which the value of e is known: its own, and the
+    local it was cached in before copy propagation replaced the read"""
+    out = {canon(e)}
+    x = e
+    while isinstance(x, dict):
+        if '_was' in x:
+            out.add(x['_was'])
+        if x.get('k') in ('load', 'cast', 'paren') and isinstance(x.get('e'), dict):
+            x = x['e']
+        else:
+            break
+    return out
+
+
+def same_value(a, b):
+    return bool(names_of(a) & names_of(b))
+
+
+def _pure_path(e):
+    """expression without calls / side effects (may read memory)"""
+    for x in walk(e):
+        if x.get('k') in ('call', 'assign', 'incdec', 'stmtexpr', 'other', 'deep', 'va_arg', 'init', 'compound'):
+            return False
+    return True
+
+
+def _keys_read(e):
+    keys = set()
+    for x in walk(e):
+        k = x.get('k')
+        if k == 'member':
+            keys.add((x.get('record'), x['field']))
+        elif k == 'var':
+            keys.add(('var', x['name']))
+        elif k in ('deref', 'index'):
+            keys.add(('mem', '*'))
+    return keys
+
+
+def copy_propagate(fn, max_expr=40):
+    """Replace reads of a local that is a still-valid copy of a pure expression
+    (`idx = fd->u.index; ... pfds[idx]`) by that expression, so that rules see
+    the same access paths whether or not a value was cached in a local.  A copy
+    is valid at a use iff on every path from the copy to the use neither the
+    local nor anything the expression reads (type-based for memory) was written
+    and no user callback ran (for expressions that read memory)."""
+    addr_taken = set()
+    for e in fn.events():
+        for x in walk(e):
+            if x.get('k') == 'addr':
+                v = strip(x['e'])
+                if isinstance(v, dict) and v.get('k') == 'var':
+                    addr_taken.add(v['name'])
+    cands = set()
+    for e in fn.events():
+        if e['ev'] == 'store' and e.get('op') == '=' and 'rhs' in e:
+            l = strip(e['lhs'])
+            if l.get('k') == 'var' and l.get('vk') == 'local' and l['name'] not in addr_taken:
+                cands.add(l['name'])
+        elif e['ev'] == 'decl' and 'init' in e and e['name'] not in addr_taken:
+            cands.add(e['name'])
+    if not cands:
+        return 0
+
+    def defn(e):
+        if e['ev'] == 'store' and e.get('op') == '=' and 'rhs' in e:
+            l = strip(e['lhs'])
+            if l.get('k') == 'var' and l['name'] in cands:
+                return l['name'], e['rhs']
+        if e['ev'] == 'decl' and 'init' in e and e['name'] in cands:
+            return e['name'], e['init']
+        return None
+
+    def usable(rhs, name):
+        r = strip_load(rhs)
+        if not isinstance(r, dict):
+            return False
+        if r.get('k') in ('int', 'null', 'str'):
+            return False          # constants are handled by the atom analysis
+        if not _pure_path(rhs):
+            return False
+        # only cached memory reads along a plain access path: p->f, a.b.c, p->a[i], *p
+        def path(x):
+            x = strip_load(x)
+            while isinstance(x, dict) and x.get('k') in ('cast', 'load'):
+                x = strip_load(x['e'])
+            if not isinstance(x, dict):
+                return False
+            k = x.get('k')
+            if k == 'var':
+                return True
+            if k == 'member':
+                return path(x['base'])
+            if k == 'index':
+                return path(x['base']) and (strip_load(x['idx']).get('k') in ('int', 'var') or path(x['idx']))
+            if k == 'deref':
+                return path(x['e'])
+            return False
+        inner = r
+        while isinstance(inner, dict) and inner.get('k') in ('cast', 'load'):
+            inner = strip_load(inner['e'])
+        if not isinstance(inner, dict) or inner.get('k') == 'var' or not path(rhs):
+            return False
+        if ('var', name) in _keys_read(rhs):
+            return False
+        n = sum(1 for _ in walk(rhs))
+        return n <= max_expr
+
+    def transfer(e, S):
+        ev = e['ev']
+        kills = set()
+        if ev == 'store':
+            for st in lvalue_steps(e['lhs']):
+                kills.add(st)
+            l = strip(e['lhs'])
+            if l.get('k') == 'var':
+                kills.add(('var', l['name']))
+            if l.get('k') in ('deref', 'index') and not lvalue_steps(e['lhs']):
+                kills.add(('mem', '*'))
+        elif ev == 'decl':
+            kills.add(('var', e['name']))
+        elif ev == 'call':
+            if 'fnexpr' in e:
+                S = frozenset(x for x in S if all(k[0] == 'var' for k in x[2]))
+            for a in e.get('args', []):
+                a = strip(a)
+                if isinstance(a, dict) and a.get('k') == 'addr':
+                    v = strip(a['e'])
+                    if isinstance(v, dict) and v.get('k') == 'var':
+                        kills.add(('var', v['name']))
+            nm = e.get('callee')
+            if nm and nm not in PURE_CALLS:
+                # a call into unknown code may write memory: copies of memory reads die (conservative),
+                # except through primitives known not to write user-visible fields
+                S = frozenset(x for x in S if all(k[0] == 'var' for k in x[2]))
+        if kills:
+            S = frozenset(x for x in S if not (x[2] & kills) and ('var', x[0]) not in kills)
+        d = defn(e)
+        if d and usable(d[1], d[0]):
+            S = frozenset(x for x in S if x[0] != d[0]) | {(d[0], json.dumps(d[1], sort_keys=True), frozenset(_keys_read(d[1])))}
+        return S
+
+    _, ev_in = forward(fn, frozenset(), transfer, lambda a, b: a & b)
+    n = [0]
+
+    def rewrite(x, S):
+        avail = {v: ex for (v, ex, _) in S}
+        if not avail:
+            return x
+        def r(nd):
+            if nd.get('k') == 'load':
+                inner = nd.get('e')
+                if isinstance(inner, dict) and inner.get('k') == 'var' and inner['name'] in avail and inner.get('vk') == 'local':
+                    n[0] += 1
+                    out = json.loads(avail[inner['name']])
+                    out['_was'] = inner['name']
+                    return out
+            return None
+        return subst(x, r)
+
+    for b, blk in fn.blocks.items():
+        for i, e in enumerate(blk.events):
+            S = ev_in.get((b, i))
+            if not S:
+                continue
+            if e['ev'] == 'load':
+                v = strip_load(e['e'])
+                if isinstance(v, dict) and v.get('k') == 'var' and any(v['name'] == x[0] for x in S):
+                    ex = [x[1] for x in S if x[0] == v['name']][0]
+                    e['e'] = strip_load(json.loads(ex))
+                    e['e']['_was'] = v['name']
+                    n[0] += 1
+                else:
+                    e['e'] = rewrite(e['e'], S)
+                continue
+            for key in ('rhs', 'args', 'fnexpr', 'value', 'init'):
+                if key in e:
+                    e[key] = rewrite(e[key], S)
+            if e['ev'] == 'store':
+                # loads nested in the lvalue (base pointers), not the stored-to variable itself
+                l = e['lhs']
+                if strip(l).get('k') != 'var':
+                    e['lhs'] = rewrite(l, S)
+        S = ev_in.get((b, len(blk.events)))
+        if S and blk.term and blk.term.get('cond') is not None:
+            blk.term = dict(blk.term, cond=rewrite(blk.term['cond'], S))
+    return n[0]
+
+
+# calls that cannot write user-visible object fields (so copies of memory reads survive them)
+PURE_CALLS = {'iv_list_empty', 'iv_get_state', 'pthr_self', 'pthreads_available', 'is_mt_app', 'getpid', '__errno_location',
+              'iv_tls_user_ptr', '__iv_tls_user_ptr', 'iv_get_thread_id', 'timespec_gt', 'timer_ptr_gt', 'strcmp', 'strerror',
+              'iv_avl_tree_empty', 'iv_avl_tree_min', 'iv_avl_tree_max', 'iv_avl_tree_next', 'iv_avl_tree_prev', 'height', 'balance',
+              '___mutex_lock', '___mutex_unlock', 'spin_lock', 'spin_unlock', 'iv_fatal', 'abs', 'fprintf', 'perror', 'snprintf'}
 
 
 def relpath(loc):
